@@ -9,6 +9,7 @@ import z3
 from .prog import Unsupported
 from .values import *
 from .models import model, MODELS, new_error, match_at
+
 from .pgpmodel import read_all
 
 MEM_T = '*verif.memReader'
@@ -123,8 +124,16 @@ def _gzip_newreader(I, st, args):
     return open_codec(I, st, b'.gz', args[0], wrap)
 
 
+def _nil_guard(f, what):
+    def g(I, st, args):
+        if args[0] is None:
+            raise GoPanic('runtime error: invalid memory address or nil pointer dereference (%s on a nil receiver)' % what)
+        return f(I, st, args)
+    return g
+
+
 for _m in ('Read', 'Close'):
-    MODELS['(*compress/gzip.Reader).' + _m] = (lambda m: (lambda I, st, args: mem_read(I, st, args[0], args[1]) if m == 'Read' else None))(_m)
+    MODELS['(*compress/gzip.Reader).' + _m] = _nil_guard((lambda m: (lambda I, st, args: mem_read(I, st, args[0], args[1]) if m == 'Read' else None))(_m), 'gzip.Reader.' + _m)
 
 
 @model('(*compress/gzip.Reader).Multistream')
@@ -149,7 +158,7 @@ def _xz_newreader(I, st, args):
     return open_codec(I, st, b'.xz', args[0], wrap)
 
 
-MODELS['(*github.com/xi2/xz.Reader).Read'] = lambda I, st, args: mem_read(I, st, args[0], args[1])
+MODELS['(*github.com/xi2/xz.Reader).Read'] = _nil_guard(lambda I, st, args: mem_read(I, st, args[0], args[1]), 'xz.Reader.Read')
 
 
 @model('github.com/klauspost/compress/zstd.NewReader')
@@ -160,7 +169,7 @@ def _zstd_newreader(I, st, args):
     return open_codec(I, st, b'.zst', args[0], wrap)
 
 
-MODELS['(*github.com/klauspost/compress/zstd.Decoder).Read'] = lambda I, st, args: mem_read(I, st, args[0], args[1])
+MODELS['(*github.com/klauspost/compress/zstd.Decoder).Read'] = _nil_guard(lambda I, st, args: mem_read(I, st, args[0], args[1]), 'zstd.Decoder.Read')
 
 
 @model('compress/bzip2.NewReader')
